@@ -3,6 +3,8 @@ package checks
 import (
 	"fmt"
 	"go/types"
+	"os"
+	"strconv"
 	"strings"
 
 	"golang.org/x/tools/go/ssa"
@@ -24,12 +26,56 @@ type e3Env struct {
 	h5T   types.Type
 	k     int
 	trace bool
+	resid map[string]bool // rule|function|construct of the listed residuals
+}
+
+// unlistedFailures counts the undischarged obligations of an engine that are not listed residuals.
+func (env *e3Env) unlistedFailures(e *absint.Engine) int {
+	n := 0
+	for _, o := range e.Obs {
+		if o.Bad > 0 && !env.resid[o.Rule+"|"+o.Fn+"|"+o.Expr] {
+			n++
+		}
+	}
+	return n
+}
+
+// runEscalating analyses a root; when obligations stay undischarged (beyond the
+// listed residuals) it repeats the analysis with more disjuncts (K×2, K×4) and a
+// larger budget, and keeps the most precise run.  The analysis is sound for any K;
+// more disjuncts only remove imprecision introduced by merging paths.
+func (env *e3Env) runEscalating(cfg absint.Config, fn *ssa.Function, setup func(e *absint.Engine, st *absint.State, fr *absint.Frame)) (*absint.Engine, int) {
+	e := absint.NewEngine(env.p, cfg)
+	e.RunRoot(fn, setup)
+	bad := env.unlistedFailures(e)
+	level := 0
+	for attempt := 1; attempt <= 2 && bad > 0; attempt++ {
+		c2 := cfg
+		c2.K = cfg.K << uint(attempt)
+		if cfg.ResultCap > 0 {
+			c2.ResultCap = cfg.ResultCap << uint(attempt)
+		}
+		c2.MaxLP = 450000
+		e2 := absint.NewEngine(env.p, c2)
+		e2.RunRoot(fn, setup)
+		if b2 := env.unlistedFailures(e2); b2 < bad {
+			e, bad, level = e2, b2, attempt
+		}
+	}
+	return e, level
 }
 
 func newE3Env(c *Ctx, r *core.Result) *e3Env {
 	env := &e3Env{c: c, p: c.P, k: 8}
 	if c.Tier == "thorough" {
 		env.k = 12
+	}
+	if v, err := strconv.Atoi(os.Getenv("VERIF_K")); err == nil && v > 0 {
+		env.k = v // debugging
+	}
+	env.resid = map[string]bool{}
+	for _, re := range loadResiduals(c, r) {
+		env.resid[re.Rule+"|"+re.Func+"|"+re.Expr] = true
 	}
 	env.a = loadAnchors(c, r)
 	t, errs := tables.Extract(c.P)
@@ -221,4 +267,11 @@ func retLabel(ret *ssa.Return) string {
 		return fmt.Sprintf("%s #%d", txt, idx)
 	}
 	return txt
+}
+
+func levelNote(level int) string {
+	if level == 0 {
+		return ""
+	}
+	return fmt.Sprintf(" (needed K×%d)", 1<<uint(level))
 }
